@@ -23,6 +23,14 @@ def make_wl(rng, k):
     spec["mapq_mix"] = 1 if (k is not None and k % 2 == 1) or (k is None and rng.random() < 0.5) else 0
     if spec["mapq_mix"] and rng.random() < 0.3:
         opts["extra"] = ["--min_mapq", str(rng.choice([4, 5, 10, 20]))]
+    if k is not None and k % 8 == 4:
+        # the resolver is also what collapses the two copies of an alignment processed in two sub-regions
+        spec["long_locus"] = 1
+        opts["extra"] = ["--no_secondary"]
+    if k is not None and k % 8 == 6:
+        # read names that start with '#' (valid QNAME); the intergenic reads at 40-220 are the first records of their chromosome
+        spec["hash_names"] = 1
+        spec["intergenic"] = max(spec.get("n_chr", 3), 3)
     # chrP: >= 1024 short reads inside one coverage bin; a deep island whose last coverage valley is its last bin
     spec["pile"] = 1 if (k is not None and k % 4 == 1) or (k is None and rng.random() < 0.15) else 0
     if k is not None and (spec["pile"] or spec["long_locus"]):
@@ -33,6 +41,9 @@ def make_wl(rng, k):
 
 def attrs(probs, spec, opts, cell, res):
     p = probs[0]
+    if all(re.search(r"read_assignments\.tsv: (read #\S+ is not reported|distinct read count mismatch)", q) for q in probs):
+        # every problem of this run is a read whose name starts with '#'
+        return {"kind": "hash-named read missing from read_assignments.tsv"}
     return {"kind": re.sub(r"\br\d+\w*|\d+", "N", p)[:70]}
 
 
